@@ -3,6 +3,7 @@ package main
 import (
 	"fmt"
 	"go/token"
+	"go/types"
 	"strings"
 
 	"golang.org/x/tools/go/ssa"
@@ -21,6 +22,7 @@ func checkC02(c *Check) {
 	c.Rule("C02.R1", "validation precedes every binding: at every SetTokenResponse call of the handler the stored object's ID token is the very string the ID-token validator accepted (validator == true dominates the call, same access path) — directly on the login path, through the refresh helper's summary on the refresh path — and the stored token fields originate only in the token-endpoint answer of this check or in the tokens read from the store for the same session.", 3)
 	c.Rule("C02.R2", "validator shape: every `valid` return is dominated by jws.Verify(err == nil) over the same bytes that were parsed for the claims, with a key-set option built from JWKSProvider.Get(ctx, handler config) (err == nil); no path reaches `valid` when no audience element equals the configured client id, when a required nonce is absent, or when a present nonce differs (string !=) from the expected one while required; the login path passes the nonce stored for the same session and `required = true`.", 7)
 	c.Rule("C02.R3", "forbidden verification shortcuts: own non-test code references none of jws.WithKey, jws.WithInsecureNoSignature, jws.WithKeyProvider, jws.WithKeyUsed-free Verify, jwt.WithKey, jwt.WithKeySet-less verification toggles; jwt.WithVerify/WithValidate(false) occur only inside the unverified parser oidc.ParseToken, and every jws.Verify carries a WithKeySet option.", 3)
+	c.Rule("C02.R5", "key set of the requesting filter: every key set an implementation of JWKSProvider.Get can return is jwk.Parse of the parameter configuration's static JWKS or the fetch-cache entry for the parameter configuration's JWKS URI; provider state that is not keyed by the requesting configuration never flows into the result.", 3)
 	c.Rule("C02.R4", "forwarded == bound: the OK writer adds exactly the headers built by the token encoder from the token object it was given (C01.R2's justified object); the encoder maps the configured ID-token header to preamble+ID token and, only when access-token forwarding is configured, the configured access-token header to its preamble+access token (no cross-wiring of header, preamble and token).", 5)
 
 	if !requireRoles(c, "C02.R1", R, "OIDCProcess", "AllowFn", "TokenExchange", "IDTokenValidator", "CallbackHelper", "RefreshHelper") {
@@ -30,6 +32,119 @@ func checkC02(c *Check) {
 	c02R2(c, R)
 	c02R3(c, R)
 	c02R4(c, R)
+	c02R5(c, R)
+}
+
+// c02R5: the key set handed to the validator is the *requesting filter's* key set: every value returned
+// by an implementation of JWKSProvider.Get is jwk.Parse of the parameter configuration's static JWKS or
+// the cache entry for the parameter configuration's JWKS URI — never provider state shared across
+// configurations (a key set cached without regard to the filter would verify tokens of another IdP).
+func c02R5(c *Check, R *Roles) {
+	P := c.P
+	jp := P.NamedType(pkgOIDC, "JWKSProvider")
+	if !c.Anchor("C02.R5", "oidc.JWKSProvider", jp != nil) {
+		return
+	}
+	var get *types.Func
+	it := jp.Underlying().(*types.Interface)
+	for i := 0; i < it.NumMethods(); i++ {
+		if it.Method(i).Name() == "Get" {
+			get = it.Method(i)
+		}
+	}
+	impls := P.implementersOf(jp, get)
+	c.Obl(len(impls) >= 1, "C02.R5", "implementations", "-", fmt.Sprintf("%d production implementations of JWKSProvider.Get", len(impls)), "no implementation of JWKSProvider.Get found")
+	for _, impl := range impls {
+		var cfgParam *ssa.Parameter
+		for _, p := range impl.Params {
+			if typeID(p.Type()) == idOIDCConfig {
+				cfgParam = p
+			}
+		}
+		if cfgParam == nil {
+			c.Fail("C02.R5", "keyset/"+fnKey(impl), P.Pos(impl.Pos()), "no configuration parameter")
+			continue
+		}
+		// collect returned key-set leaves through own callees
+		type leaf struct {
+			v  ssa.Value
+			fn *ssa.Function
+			// maps the callee's config parameter back to "the requesting configuration"
+			cfg ssa.Value
+		}
+		var leaves []leaf
+		seen := map[*ssa.Function]bool{}
+		var collect func(fn *ssa.Function, cfg ssa.Value, depth int)
+		collect = func(fn *ssa.Function, cfg ssa.Value, depth int) {
+			if seen[fn] || depth == 0 {
+				return
+			}
+			seen[fn] = true
+			for _, r := range returnsOf(fn) {
+				for _, l := range Leaves(r.Results[0], leafOpts{noConcat: true}) {
+					if call, idx, ok := asCall(l); ok && idx == 0 {
+						if callee := call.Common().StaticCallee(); callee != nil && callee.Blocks != nil && isOwnPath(pkgPathOf(callee)) {
+							// which argument carries the configuration?
+							var sub ssa.Value
+							for i, a := range call.Common().Args {
+								if i < len(callee.Params) && dependsOnValue(a, cfg) {
+									sub = callee.Params[i]
+								}
+							}
+							if sub != nil {
+								collect(callee, sub, depth-1)
+								continue
+							}
+						}
+					}
+					leaves = append(leaves, leaf{l, fn, cfg})
+				}
+			}
+		}
+		collect(impl, cfgParam, 4)
+		n := 0
+		for _, lf := range leaves {
+			if isNilConst(lf.v) {
+				continue
+			}
+			n++
+			key := fmt.Sprintf("keyset/%s#%d", fnKey(lf.fn), n)
+			call, idx, ok := asCall(lf.v)
+			okSrc := false
+			why := "key set originates in " + descDepth(lf.v, 3) + ", which is not derived from the requesting filter's configuration (shared provider state would verify tokens against another filter's keys)"
+			if ok && idx == 0 {
+				id := funcID(calleeOf(call).Obj)
+				switch {
+				case strings.HasSuffix(id, "jwx/v2/jwk.Parse"), strings.HasSuffix(id, "jwx/v2/jwk.ParseString"):
+					if dependsOnValue(call.Common().Args[0], lf.cfg) {
+						okSrc, why = true, "jwk.Parse of the requesting configuration's static JWKS"
+					}
+				case strings.HasSuffix(id, "jwx/v2/jwk.Cache.Get"):
+					args := callArgs(call)
+					if len(args) >= 2 && dependsOnValue(args[1], lf.cfg) {
+						okSrc, why = true, "cache entry for the requesting configuration's JWKS URI"
+					}
+				}
+			}
+			c.Obl(okSrc, "C02.R5", key, P.Pos(instrPos2(lf.v)), why, why)
+		}
+		c.Obl(n >= 2, "C02.R5", "keyset-count/"+fnKey(impl), P.Pos(impl.Pos()), fmt.Sprintf("%d key-set sources (static, fetched)", n), fmt.Sprintf("%d key-set sources found (floor 2)", n))
+	}
+}
+
+// dependsOnValue: v data-depends on x.
+func dependsOnValue(v, x ssa.Value) bool {
+	if v == x {
+		return true
+	}
+	return dataDeps(v)[x]
+}
+
+func instrPos2(v ssa.Value) token.Pos {
+	if ins, ok := v.(ssa.Instruction); ok {
+		return instrPos(ins)
+	}
+	return v.Pos()
 }
 
 // tokenFieldOrigins classifies where the value stored into a TokenResponse field comes from.
